@@ -199,15 +199,26 @@ fn gen_hierarchy(src: &mut Src) -> Vec<MCell> {
         // now and then a cell that holds nothing at all (a placeholder): its instances flatten to nothing
         let empty = c > 0 && c + 1 < ncells && src.prob(1, 5);
         let ns = if empty { 0 } else { src.usize_in(if c == 0 { 1 } else { 0 }, 3) };
-        let shapes = (0..ns).map(|_| (src.index(3), gen_shape(src))).collect();
+        let mut shapes: Vec<(usize, MShape)> = (0..ns).map(|_| (src.index(3), gen_shape(src))).collect();
         let ni = if c == 0 || empty { 0 } else { src.usize_in(1, 3) };
-        let insts = (0..ni)
+        let mut insts: Vec<(usize, Place)> = (0..ni)
             .map(|_| {
                 // bias towards the previous cell so that depth builds up
                 let target = if src.bool() { c - 1 } else { src.index(c) };
                 (target, Place { o: Orient::from_index(src.index(8)), loc: (src.signed(500), src.signed(500)), none_angle: src.bool() })
             })
             .collect();
+        // a shape drawn twice, an instance placed twice (every copy is in the flattened result)
+        if !shapes.is_empty() && src.prob(1, 6) {
+            let k = src.index(shapes.len());
+            let d = shapes[k].clone();
+            shapes.insert(k + 1, d);
+        }
+        if !insts.is_empty() && src.prob(1, 6) {
+            let k = src.index(insts.len());
+            let d = insts[k].clone();
+            insts.insert(k + 1, d);
+        }
         cells.push(MCell { shapes, insts });
     }
     cells
